@@ -5,6 +5,7 @@ import vcheck
 from vcheck import Stream, sx_parse, sx_str
 from gen.stategen import *
 from gen import stepgen, proggen
+from gen.pools import fbits
 
 PROPERTY = "C14"
 PROPS_VO = "Props/C14"
@@ -109,6 +110,41 @@ def streams(seed, tier):
     out.append(Stream("after-100-unrelated-runs", "thr.repeat", "thr.repeat.check", cases_after,
                       "the same kind of case run once, then again after 100 runs of three other programs interleaved with graph node creations and "
                       "RAND draws, then on 2 threads"))
+    # (1b) history sensitivity: the same instruction applied first to NEAR-MISS operands (one operand perturbed)
+    #      in the same thread, then to the case itself: a result cached on part of the operands would leak
+    near = []
+    radii = [fbits(x) for x in (0.0, 0.5, 1.0, 1.2, 1.4142135, 1.5, 2.0, 2.236068, 3.0)]
+    nn = {"quick": 60, "thorough": 1200, "search": 200}[tier]
+    for k in range(nn):
+        size, dims = rng.choice([(9, 2), (16, 2), (27, 3), (8, 1), (12, 2), (25, 2)])
+        index = rng.randrange(0, size)
+        nm = rng.choice(["LIST.NEIGHBOR*IDS", "LIST.NEIGHBOR*IVALS"])
+        def nb(r, idx=index, sz=size, dm=dims):
+            ints = [sz, idx, dm] if nm.endswith("IDS") else [0, sz, idx, dm]
+            return state(exec=[I(nm)], int=ints, float=[r], code=[L(Z(j)) for j in range(sz)], cfg=cfg(30, 500))
+        r = rng.choice(radii)
+        others = [nb(o) for o in rng.sample(radii, 3)] + [nb(r, idx=(index + 1) % size)]
+        if nm in modelled:
+            near.append(repeat_case(k % 2, nb(r), 1, len(others), 1, others))
+    for k in range(nn):
+        nmx = rng.choice([x for x in safe if x.split(".")[0] in ("INTEGER", "FLOAT", "CODE", "BOOLVECTOR", "INTVECTOR", "FLOATVECTOR", "LIST")])
+        base = stepgen.rand_state(rng, safe, safe, maxdepth=3)
+        base["exec"] = [I(nmx)]; base["cfg"] = cfg(30, 500)
+        base = stepgen.tame_ints(base)
+        others = []
+        for _ in range(3):
+            v = {kk: (list(vv) if isinstance(vv, list) else vv) for kk, vv in base.items()}
+            if v["int"] and rng.random() < 0.6:
+                v["int"] = [v["int"][0] + rng.choice([-1, 1])] + v["int"][1:]
+            elif v["float"]:
+                v["float"] = [rng.choice(radii)] + v["float"][1:]
+            elif v["bool"]:
+                v["bool"] = [not v["bool"][0]] + v["bool"][1:]
+            others.append(state(**v))
+        near.append(repeat_case(k % 2, state(**base), 1, 3, 1, others))
+    out.append(Stream("after-near-miss-runs", "thr.repeat", "thr.repeat.check", near,
+                      "one instruction (LIST.NEIGHBOR* on small lattices with radii between lattice distances; random scalar / vector / list instructions) "
+                      "executed after runs of the SAME instruction on near-miss operands (one operand perturbed) in the same thread: the result must not depend on that history"))
     # (2) node ids under real concurrency
     idc = [[16, 10000, 0], [16, 100000, 0], [16, 10000, 1], [1, 1000, 0], [2, 100000, 1], [8, 20000, 1]]
     if tier != "quick":
